@@ -379,6 +379,21 @@ func (e *c04Exec) subRun(z zoneCfg) (out []string, sdig string, infra string) {
 					infra = got.Outcome
 					return
 				}
+				if len(got.Nested) > 0 {
+					// a user function evaluated the same expression on the same input with the same options
+					// from inside the evaluation (bounded recursion; the function answers its input): every
+					// nested evaluation computes what the outermost one computes
+					v.Stats.probeN("recursive-evaluation-from-callback", len(got.Nested))
+					if !got.Fired && (!timeDependent(c.Programs[op.Prog].Src) || got.HasTime) && got.Ticks == 0 {
+						for k, n := range got.Nested {
+							if n != got.finalByValue {
+								e.violate("isolation-reference", "nested-evaluation-differs", fmt.Sprintf("client %d op %d (%s %q): nested evaluation %d of the same expression on the same input (started by a user function, same goroutine) gives %s, the evaluation itself %s",
+									ci, oi, op.Kind, c.Programs[op.Prog].Src, k, short(n, 300), short(got.finalByValue, 300)))
+								break
+							}
+						}
+					}
+				}
 				if strings.Contains(got.Probes, "reenter(") {
 					v.Stats.probe("nested-evaluation-from-callback")
 				}
